@@ -126,7 +126,7 @@ def execute(case):
         if cmd == 'get':
             props["keys"] = ["numprocesses", "graceful_timeout"]
         busy = not w.quiescent()
-        slept0 = w.max_cb_slept
+        t_probe = w.loop.time()
         kk = w.kernel
         saved = (kk.ncalls, kk.faults)
         kk.faults = []
@@ -158,6 +158,12 @@ def execute(case):
                 'read-only request %s %r sent while busy=%s got %d '
                 'synchronous replies: %r (escaped %r)' % (
                     cmd, props, busy, r.sync_replies, rep, r.escaped)))
+        if w.loop.time() - t_probe > 1e-9 and not w.blocked:
+            viols.append(Violation(
+                'C05:readonly-request-slept:%s' % cmd,
+                'serving the read-only request %s %r kept the event loop '
+                'in time.sleep for %.3f s' % (cmd, props,
+                                              w.loop.time() - t_probe)))
         # (c) deadlines passed?
         now = w.loop.time()
         for t in tracked:
